@@ -1,6 +1,10 @@
 import ExponaxModel.Proofs.SymbolAlgebra
 import ExponaxModel.Proofs.WaveAlgebra
 import ExponaxModel.Proofs.LerayBasic
+import ExponaxModel.Proofs.Differentiability
+import ExponaxModel.Proofs.DifferentiabilityCoef
+import ExponaxModel.Proofs.DifferentiabilityParam
+import ExponaxModel.Proofs.DifferentiabilityVec
 /-
 C07 — steppers are differentiable with correct derivatives — PARTIAL.
 JAX's AD engine and IEEE NaN propagation are not modelled.  What is proved: the per-mode maps of the model are
@@ -39,5 +43,66 @@ theorem C07_guards_parameter_free (c c' : Cfg ℂ) (hD : c.D = c'.D) (hN : c.N =
   invLap_depends_only_on_D_N_s c c' hD hN hs h
 
 example : (1 : ℂ) ≠ 0 := one_ne_zero
+
+/-! ### the model maps ARE differentiable with the stated derivatives (`Proofs/Differentiability*.lean`), so an AD result
+that differs from them — or is NaN — is a defect of the implementation, not of the mathematics -/
+
+/-- one ETDRK1 step: derivative `E + c₁ N'(u)` -/
+theorem C07_step_state_derivative {𝕜 : Type} [NontriviallyNormedField 𝕜] (E c1 : 𝕜) (N : 𝕜 → 𝕜) (u N'u : 𝕜)
+    (hN : HasDerivAt N N'u u) : HasDerivAt (E1step E c1 N) (E + c1 * N'u) u :=
+  Diff.E1step_hasDerivAt E c1 N u N'u hN
+
+/-- n ETDRK4 steps (a rollout): differentiable, derivative = product of the per-step derivatives (chain rule) -/
+theorem C07_rollout_state_derivative {𝕜 : Type} [NontriviallyNormedField 𝕜] (E Eh c1 c2 c3 c4 c5 c6 : 𝕜)
+    (N N' : 𝕜 → 𝕜) (hN : ∀ x, HasDerivAt N (N' x) x) (u : 𝕜) (n : ℕ) :
+    HasDerivAt (E4step E Eh c1 c2 c3 c4 c5 c6 N)^[n]
+      (∏ k ∈ Finset.range n, Diff.E4step' E Eh c1 c2 c3 c4 c5 c6 N N' ((E4step E Eh c1 c2 c3 c4 c5 c6 N)^[k] u)) u :=
+  Diff.E4_rollout_hasDerivAt E Eh c1 c2 c3 c4 c5 c6 N N' hN u n
+
+/-- the same for vector states (any finite-dimensional normed algebra, e.g. the spectrum `Fin n → ℂ`): Fréchet
+    derivative of an n-step rollout -/
+theorem C07_rollout_frechet {𝕜 : Type} [NontriviallyNormedField 𝕜] {V : Type} [NormedRing V] [NormedAlgebra 𝕜 V]
+    (E Eh c1 c2 c3 c4 c5 c6 : V) (N : V → V) (N' : V → V →L[𝕜] V) (hN : ∀ x, HasFDerivAt N (N' x) x) (u : V)
+    (n : ℕ) :
+    HasFDerivAt (E4step E Eh c1 c2 c3 c4 c5 c6 N)^[n]
+      (Diff.iterFDeriv (E4step E Eh c1 c2 c3 c4 c5 c6 N) (Diff.E4stepV' E Eh c1 c2 c3 c4 c5 c6 N N') u n) u :=
+  Diff.E4V_rollout_hasFDerivAt E Eh c1 c2 c3 c4 c5 c6 N N' hN u n
+
+/-- polynomial nonlinearities are differentiable everywhere, at `u = 0` too (derivative = the linear coefficient) -/
+theorem C07_polynomial_derivative {𝕜 : Type} [NontriviallyNormedField 𝕜] (cs : List 𝕜) (u : 𝕜) :
+    HasDerivAt (polyEval cs) (Diff.polyDeriv cs u) u ∧ HasDerivAt (polyEval cs) (cs.getD 1 0) 0 :=
+  ⟨Diff.polyEval_hasDerivAt cs u, Diff.polyEval_hasDerivAt_zero cs⟩
+
+/-- THE GUARDED POINT λ = 0: every stored coefficient (regenerated definitions) is differentiable in λ at 0 and in dt,
+    because the contour formulation never evaluates the removable singularity -/
+theorem C07_coefficients_differentiable_at_zero_symbol (M : ℕ) (r : ℂ) (hr : r ≠ 0) (dt₀ : ℂ) :
+    DifferentiableAt ℂ (fun lam => E1_coef_1 dt₀ lam M r) 0 ∧ DifferentiableAt ℂ (fun lam => E2_coef_2 dt₀ lam M r) 0 ∧
+    DifferentiableAt ℂ (fun lam => E4_coef_4 dt₀ lam M r) 0 ∧ DifferentiableAt ℂ (fun lam => E4_coef_6 dt₀ lam M r) 0 ∧
+    DifferentiableAt ℂ (fun dt => E4_coef_4 dt 0 M r) dt₀ :=
+  ⟨Diff.E1_coef_1_differentiableAt_lam_zero M r hr dt₀, Diff.E2_coef_2_differentiableAt_lam_zero M r hr dt₀,
+   Diff.E4_coef_4_differentiableAt_lam_zero M r hr dt₀, Diff.E4_coef_6_differentiableAt_lam_zero M r hr dt₀,
+   Diff.E4_coef_4_differentiableAt_dt_zero M r hr dt₀⟩
+
+/-- the whole ETDRK4 step, built from the regenerated propagators and coefficients, is jointly differentiable in
+    `(dt, λ)` wherever no contour node is zero (every real `λ dt`, by `C19_real_symbol_nodes_nonzero`) -/
+theorem C07_step_differentiable_in_dt_and_symbol (M : ℕ) (r dt₀ lam₀ : ℂ) (hn : Diff.NodesAvoidZero M r (lam₀ * dt₀))
+    (N : ℂ → ℂ) (hN : Differentiable ℂ N) (u : ℂ) :
+    DifferentiableAt ℂ (fun p : ℂ × ℂ =>
+      E4step (exp_term p.1 p.2) (E4_half_exp_term p.1 p.2 M r) (E4_coef_1 p.1 p.2 M r) (E4_coef_2 p.1 p.2 M r)
+        (E4_coef_3 p.1 p.2 M r) (E4_coef_4 p.1 p.2 M r) (E4_coef_5 p.1 p.2 M r) (E4_coef_6 p.1 p.2 M r) N u)
+      (dt₀, lam₀) :=
+  Diff.E4step_model_differentiableAt_joint M r dt₀ lam₀ hn N hN u
+
+/-- a PDE coefficient: the linear step with `λ = λ(θ)` has derivative `dt λ'(θ) e^{dt λ(θ)} u` -/
+theorem C07_coefficient_derivative (dt u : ℂ) (lamf : ℂ → ℂ) (lam' θ₀ : ℂ) (h : HasDerivAt lamf lam' θ₀) :
+    HasDerivAt (fun θ => E0step (exp_term dt (lamf θ)) u) (dt * lam' * exp_term dt (lamf θ₀) * u) θ₀ :=
+  Diff.linear_step_hasDerivAt_param dt u lamf lam' θ₀ h
+
+/-- GUARDED DIVISIONS: the model's `if d = 0 then 0 else x/d` is linear in `x` for every fixed `d` (also `d = 0`), so
+    its derivative exists and is finite at the zero mean mode; the Poisson solve is linear in the right-hand side -/
+theorem C07_guarded_division (d x : ℂ) (c : Cfg ℂ) (order h : ℕ) (f : ℂ) :
+    HasDerivAt (Diff.guardedDiv d) (Diff.guardedDiv d 1) x ∧ HasDerivAt (Diff.guardedDiv 0) 0 x ∧
+    HasDerivAt (poissonStep c order h) (poissonStep c order h 1) f :=
+  ⟨Diff.guardedDiv_hasDerivAt d x, Diff.guardedDiv_hasDerivAt_at_zero_divisor x, Diff.poissonStep_hasDerivAt c order h f⟩
 
 end Exponax
